@@ -80,7 +80,26 @@ def _nm_part(table, req, qlen, tlen, tiers=("quick", "thorough")):
 C17_PARTS = [_nm_part("T2", "CSV", 3, 4), _nm_part("T3", "GEFF", 3, 4),
              _nm_part("T3", "CSV", 2, 3), _nm_part("T2", "GEFF", 2, 3)]
 
+_RL = lambda T, PX, L, S, M: {"T": str(T), "PX": str(PX), "L": str(L), "S": str(S), "MaxNode": str(M)}
+C13_PARTS = [
+    {"name": "relabel_fn", "driver": "relabel",
+     "design": {"module": "Relabel.tla", "invariants": ["Inv_Relabel"],
+                "consts": {"quick": _RL(2, 2, 2, 2, 2), "thorough": _RL(2, 2, 3, 2, 3)}},
+     "args": {"quick": {"T": 2, "PX": 2, "L": 3, "S": 2, "MaxNode": 3},
+              "thorough": {"T": 2, "PX": 3, "L": 3, "S": 2, "MaxNode": 3}},
+     "trace": {"module": "TraceRelabel.tla", "consts": {"quick": _RL(2, 2, 3, 2, 3), "thorough": _RL(2, 3, 3, 2, 3)}}},
+    # end to end through tracks_from_df(df, segmentation): graph and array shift together
+    {"name": "relabel_df", "driver": "relabel",
+     "args": {"quick": {"T": 2, "PX": 2, "L": 3, "S": 2, "MaxNode": 3, "via": "df", "cap": 4},
+              "thorough": {"T": 2, "PX": 2, "L": 3, "S": 2, "MaxNode": 3, "via": "df", "cap": 40}},
+     "trace": {"module": "TraceRelabel.tla", "consts": _RL(2, 2, 3, 2, 3)}},
+]
+
 PROPS = {
+    "C13": (C13_PARTS,
+            "all label arrays (2 frames, labels 0..3 incl. an unlisted one) x all injective assignments (time, seg id) -> node id over ids 0..3 "
+            "(reused labels across frames, label = another node's id, permutations, id 0); non-trivial = id 0 present or a node id equal to a seg id of another slot",
+            ["2 frames x 2-3 pixels; the relabelling works pixel-wise and frame-wise, so larger arrays add no new cases"]),
     "C17": (C17_PARTS,
             "all ordered lists of distinct names of a 22-name vocabulary (exact keys, case variants, near-duplicates) up to the "
             "stated length, x 2 feature tables (2D / 3D display names) x 2 required-key sets (CSV / GEFF); non-trivial = list with "
